@@ -9,8 +9,7 @@ Theorem model_meets_spec ops :
   spec_ok (CHist ops) (model (CHist ops)) = true.
 Proof.
   intros G1 G2. destruct (history_refines_partial ListLibs ops G1 G2) as (h & S & C).
-  unfold spec_ok, model. rewrite S, C. unfold abs_slots. rewrite !map_length, Nat.eqb_refl. simpl.
-  rewrite andb_true_r. induction (slots (irun ListLibs ops)); simpl; auto.
+  unfold spec_ok, model. rewrite S, C. reflexivity.
 Qed.
 
 Lemma tag_zero_iff ops :
@@ -41,7 +40,7 @@ Proof. vm_compute. reflexivity. Qed.
 Example negative_index_values :
   model (CHist [v123; OGet 0 (i_ (-1)) None; OContains 0 (i_ (-1)); OAssoc 0 (i_ (-1)) (k_ 1)]) =
   OOut [RColl (CVec [i_ 1; i_ 2; i_ 3]) None; RVal (i_ 3); RBool false; RColl (CVec [i_ 1; i_ 2; k_ 1]) None]
-       [true; true; true; true] [].
+       true [].
 Proof. vm_compute. reflexivity. Qed.
 
 (** ** F-04b: (with-meta c nil) keeps the old metadata *)
@@ -55,7 +54,7 @@ Proof. vm_compute. reflexivity. Qed.
 Example with_meta_nil_values :
   model (CHist meta_witness) =
   OOut [RColl (CVec [i_ 1]) None; RColl (CVec [i_ 1]) (Some 1%N); RColl (CVec [i_ 1]) (Some 1%N); RNum 1]
-       [true; true; true; true] [].
+       true [].
 Proof. vm_compute. reflexivity. Qed.
 
 (** ** the guards are met by a history that uses every kind, transients, aliasing, a
